@@ -93,6 +93,35 @@ def main(argv):
     ok = st_bad["not_conforming"] == st_bad["rounds_replayed"] > 0
     print(("PASS " if ok else "FAIL ") + f"with the get_client calls removed from the logs, {st_bad['not_conforming']} of {st_bad['rounds_replayed']} rounds are rejected by the model")
     allok &= ok
+    # ---- 4. the upload layer: the model's negative controls break their invariant; real socket steps replay as behaviours of
+    # SyncUpload; with one observation corrupted (stored bytes not the upload's; a request not served) they are rejected
+    um = engines.upload_model(wd, "quick")
+    ok = um["as-built"]["invariants_hold"] and um["transaction-before-body"]["breaks"] == "NoHolding" and um["per-thread-buffer"]["breaks"] == "Integrity"
+    print(("PASS " if ok else "FAIL ") + "SyncUpload: as built holds; transaction-before-body breaks NoHolding; per-thread buffer breaks Integrity")
+    allok &= ok
+    oj = seqplan.overlap_jobs(random.Random(7), 2, 1)
+    wd4 = os.path.join(wd, "up")
+    os.makedirs(wd4)
+    s4, f4 = run_harness_sharded(binary, "seq", {"threads": 1, "needs_clock": False, "jobs": oj}, wd4, nproc=2, env=engines.SOCK_ENV)
+    ust, ubad = engines.upload_conformance(f4, wd4)
+    ok = ust["groups"] > 0 and ust["not_conforming"] == 0
+    print(("PASS " if ok else "FAIL ") + f"{ust['groups']} groups of overlapping uploads ({ust['lines']} socket steps) replay as behaviours of SyncUpload")
+    allok &= ok
+    for label, old_, new_ in (("a stored body that is not the upload's", '"obs":"intact"', '"obs":"altered"'), ("a request that was not served during an upload", '"ok":true', '"ok":false')):
+        f5 = []
+        done = False
+        for f in f4:
+            txt = open(f).read()
+            if not done and old_ in txt:
+                txt = txt.replace(old_, new_, 1)
+                done = True
+            p5 = f + ".corrupt"
+            open(p5, "w").write(txt)
+            f5.append(p5)
+        ust2, ubad2 = engines.upload_conformance(f5, wd4, tag="upload-corrupt")
+        ok = done and ust2["not_conforming"] >= 1
+        print(("PASS " if ok else "FAIL ") + f"corrupted socket log ({label}): {ust2['not_conforming']} group(s) rejected by SyncUpload")
+        allok &= ok
     shutil.rmtree(wd, ignore_errors=True)
     print("selftest " + ("OK" if allok else "FAILED"))
     return 0 if allok else 1
